@@ -640,6 +640,8 @@ pub fn gen_body(r: &mut Rng, seed: u64, keys: &mut Vec<KeySpec>) -> BodySpec {
             l.expires = r.pick(&[
                 "2026-12-30T00:00:00Z", "2027-01-01T00:00:00Z", "2024-12-31T23:59:59Z", "2025-12-29T12:00:00Z", "2028-02-29T00:00:00Z",
                 "2100-02-28T23:59:59Z", "2038-01-19T03:14:08Z", "1999-12-31T23:59:59Z", "2021-01-03T00:00:00Z", "2032-12-27T00:00:00Z",
+                // leap seconds (RFC 3339 allows the seconds field 60)
+                "2016-12-31T23:59:60Z", "2030-06-30T23:59:60Z", "2027-03-04T05:06:60Z",
             ]).to_string();
         }
         BodySpec::Layout(l)
@@ -1016,6 +1018,14 @@ pub fn run_c05(tier: Tier, seed: u64, index: u64, rec: &mut RunRecord) {
                         let n = secs + d;
                         if (0..253_402_300_799).contains(&n) {
                             edits.push(DocOp::Set { ptr: ptr.clone(), value: json!(crate::refmodel::render_rfc3339(n, None, "")) });
+                        }
+                    }
+                    // the neighbouring leap second: ..:59 <-> ..:60
+                    if s.len() >= 19 && s.is_char_boundary(17) && s.is_char_boundary(19) {
+                        match &s[17..19] {
+                            "59" => edits.push(DocOp::Set { ptr: ptr.clone(), value: json!(format!("{}60{}", &s[..17], &s[19..])) }),
+                            "60" => edits.push(DocOp::Set { ptr: ptr.clone(), value: json!(format!("{}59{}", &s[..17], &s[19..])) }),
+                            _ => {}
                         }
                     }
                     // same calendar day and time in the neighbouring years
